@@ -164,15 +164,20 @@ class Run:
         if fi is not None and pred is not None:
             from .calls import callees_of
             import ast as _ast
+            hits = []
             for n in _ast.walk(fi.node):
                 try:
                     hit = pred(n)
                 except Exception:
                     hit = False
                 if hit:
-                    self.inconclusive(construct, f'{what}: not found in the form this rule reads, but {fi.qualname} contains a candidate at line '
-                                                 f'{getattr(n, "lineno", "?")} (idiom not modelled)')
-                    return False
+                    hits.append(n)
+            # more candidates in the function than the rule managed to read: some are written in a form it does not
+            # model (inconclusive).  As many (or fewer) candidates as were read: the element really is missing.
+            if len(hits) > found:
+                self.inconclusive(construct, f'{what}: {found} found in the form this rule reads, but {fi.qualname} contains {len(hits)} candidate(s) (e.g. line '
+                                             f'{getattr(hits[-1], "lineno", "?")}): idiom not modelled')
+                return False
 
             for cal in callees_of(self.repo, fi):
                 for n in __import__('ast').walk(cal.node):
